@@ -3,6 +3,7 @@ import MoneroModel.Drv.C13
 import MoneroModel.Drv.C15
 import MoneroModel.Drv.C16
 import MoneroModel.Model.Block
+import MoneroModel.Model.Panics
 open Monero
 /-! Driver for C04: `c04_ops <entry> <hex>` → `ok` | `err`: does the entry point's MODEL accept the input? The models are total
 functions, so the model never answers "panic", "abort" or "timeout"; any such answer of the implementation is a
@@ -37,5 +38,30 @@ def stepC04 : Step
       | "hash_str" => some "-"
       | _ => none
     m.map fun x => (x, "-")
+  -- the public decoders with `usize` parameters: the PANIC-EXPLICIT models answer (`1 + inputs` is a checked usize addition)
+  -- large inputs built inside the harness child: isolation checks only (no panic / abort / timeout, heap bound), no model side
+  | ["c04_big", _, _, _] => some ("-", "-")
+  | ["c04_dec", "base", i, o, h] =>
+    match i.toNat?, o.toNat? with
+    | some i, some o => some (okE (base i o (Hex.decode h)).isSome, "-")
+    | _, _ => none
+  | ["c04_dec", "prunable", ty, i, o, mx, h] =>
+    match ty.toNat?, i.toNat?, o.toNat?, mx.toNat? with
+    | some ty, some i, some o, some mx =>
+      some ((match Panics.prunableP ty i o mx (Hex.decode h) with | .ok _ => "ok" | .err => "err" | .panic s => "MODEL-PANIC " ++ s), "-")
+    | _, _, _, _ => none
+  | ["c04_dec", "sized", el, n, h] =>
+    match n.toNat? with
+    | none => none
+    | some n =>
+      let b := Hex.decode h
+      match el with
+      | "key" => some (okE (sizedVec sizes.key key n b).isSome, "-")
+      | "hash" => some (okE (sizedVec sizes.key key n b).isSome, "-")
+      | "u8" => some (okE (sizedVec sizes.u8 u8 n b).isSome, "-")
+      | "txin" => some (okE (sizedVec sizes.txin txin n b).isSome, "-")
+      | "txout" => some (okE (sizedVec sizes.txout txout n b).isSome, "-")
+      | "varint" => some (okE (sizedVec sizes.varint varint n b).isSome, "-")
+      | _ => none
   | _ => none
 end Drv
